@@ -138,6 +138,10 @@ enum Op {
     Typed(Vec<Seg>),
     /// oracle-bearing: look up every chord over `alphabet` of length 1..=maxlen
     LookupAll(Vec<Key>, usize),
+    /// `KeyMapHandler`: register / clear / handle
+    HReg(Vec<Key>, u32),
+    HClear,
+    HKey(Key),
 }
 
 impl Op {
@@ -163,6 +167,9 @@ impl Op {
                     .join("/")
             )),
             Op::LookupAll(a, n) => json!(format!("all={}={}", chord_wire(a), n)),
+            Op::HReg(c, v) => json!(format!("hr={}={}", chord_wire(c), v)),
+            Op::HClear => json!("hc"),
+            Op::HKey(k) => json!(format!("hk={}", key_wire(k))),
         }
     }
     fn from_json(v: &Value) -> Option<Op> {
@@ -191,6 +198,9 @@ impl Op {
                     .collect::<Option<Vec<_>>>()?,
             ),
             ["all", a, n] => Op::LookupAll(chord_from_wire(a)?, n.parse().ok()?),
+            ["hr", c, v] => Op::HReg(chord_from_wire(c)?, v.parse().ok()?),
+            ["hc"] => Op::HClear,
+            ["hk", k] => Op::HKey(key_from_wire(k)?),
             _ => return None,
         })
     }
@@ -284,6 +294,103 @@ fn all_chords(alpha: &[Key], maxlen: usize) -> Vec<Vec<Key>> {
     res
 }
 
+/// Reference matcher: knows only the dictionary and the property.
+/// * soundness — a fire needs a chord bound to that value that is a suffix of the keys since the last fire / reset;
+/// * pending `p` known and `p + key` bound: must fire its value, nothing pending afterwards;
+/// * `p + key` a proper prefix of a bound chord: must not fire, `p + key` pending;
+/// * `p + key` dead and the key begins no bound chord: afterwards the matcher must behave as idle
+///   ("an unbound key never prevents the chord typed immediately after it from firing", from any state);
+/// * `p + key` dead and the key begins a chord: the restart policy is the implementation's business — the
+///   reference stops predicting until the next fire, reset or foreign key;
+/// * the table changes while something may be left in the matcher: stops predicting likewise — unless nothing at
+///   all has been fed since the matcher was created or cleared (`fresh`): then it is idle whatever is registered.
+#[derive(Clone)]
+struct RefMatcher {
+    /// the keys pending as far as the PROPERTY determines them (`None`: it does not)
+    pending: Option<Vec<Key>>,
+    /// keys since the last fire or reset (the reset contents included)
+    since: Vec<Key>,
+    /// no key fed since creation / clear()
+    fresh: bool,
+    judged: u64,
+}
+
+impl RefMatcher {
+    fn new() -> Self {
+        RefMatcher { pending: Some(vec![]), since: vec![], fresh: true, judged: 0 }
+    }
+    fn reset(&mut self, state: &[Key], fresh: bool) {
+        self.pending = Some(state.to_vec());
+        self.since = state.to_vec();
+        self.fresh = fresh;
+    }
+    fn table_changed(&mut self) {
+        if !self.fresh {
+            self.pending = None;
+        }
+    }
+    fn judge(&mut self, who: &str, dict: &Dict, k: Key, r: Option<u32>) -> Result<(), Failure> {
+        let a = match r {
+            None => "N".to_string(),
+            Some(v) => format!("S{v}"),
+        };
+        self.fresh = false;
+        self.since.push(k);
+        if let Some(v) = r {
+            let ok = dict.0.iter().any(|(c, x)| *x == v && self.since.ends_with(c));
+            if !ok {
+                return Err(Failure {
+                    what: format!("{who} fired a value although no chord bound to it ends at this key"),
+                    expected: json!("a bound chord that is a suffix of the keys since the last fire or reset"),
+                    got: json!(format!("S{v} after {}", chord_wire(&self.since))),
+                });
+            }
+            self.since.clear();
+        }
+        match self.pending.take() {
+            Some(p) => {
+                self.judged += 1;
+                let mut q = p.clone();
+                q.push(k);
+                match dict.lookup(&q) {
+                    Ans::Success(v) => {
+                        if r != Some(v) {
+                            return Err(Failure {
+                                what: format!("{who}: pending {} + key {} is a bound chord but its value did not fire", chord_wire(&p), key_wire(&k)),
+                                expected: json!(format!("S{v}")),
+                                got: json!(a),
+                            });
+                        }
+                        self.pending = Some(vec![]);
+                    }
+                    Ans::Continue => {
+                        if r.is_some() {
+                            return Err(Failure {
+                                what: format!("{who}: pending {} + key {} is a proper prefix of a bound chord but something fired", chord_wire(&p), key_wire(&k)),
+                                expected: json!("N"),
+                                got: json!(a),
+                            });
+                        }
+                        self.pending = Some(q);
+                    }
+                    Ans::Failure => {
+                        if !dict.begins_chord(&k) || r.is_some() {
+                            self.pending = Some(vec![]);
+                        }
+                    }
+                }
+            }
+            None => {
+                let foreign = !dict.0.iter().any(|(c, _)| c.contains(&k));
+                if r.is_some() || foreign {
+                    self.pending = Some(vec![]);
+                }
+            }
+        }
+        Ok(())
+    }
+}
+
 struct Exec {
     a: KeyMap<u32>,
     b: KeyMap<u32>,
@@ -299,14 +406,15 @@ struct Exec {
     /// `lookup_state`): compared with the model on a line of its own (`kmrep`)
     rep_wire: Vec<String>,
     rep_answers: Vec<String>,
-    /// reference matcher: the keys pending as far as the PROPERTY determines them (`None`: it does not)
-    ref_pending: Option<Vec<Key>>,
-    /// keys since the last fire or reset of the state vector (the reset contents included)
-    since_reset: Vec<Key>,
+    /// reference for `A.lookup_state` on the script's state vector
+    refm: RefMatcher,
+    /// a `KeyMapHandler`, its dictionary and its reference
+    h: KeyMapHandler<u32>,
+    dh: Dict,
+    refh: RefMatcher,
     unsorted_enum: bool,
     lookups: u64,
     typed_chords: u64,
-    judged_keys: u64,
 }
 
 impl Exec {
@@ -323,12 +431,13 @@ impl Exec {
             spec_answers: vec![],
             rep_wire: vec![],
             rep_answers: vec![],
-            ref_pending: Some(vec![]),
-            since_reset: vec![],
+            refm: RefMatcher::new(),
+            h: KeyMapHandler::new(),
+            dh: Dict::default(),
+            refh: RefMatcher::new(),
             unsorted_enum: false,
             lookups: 0,
             typed_chords: 0,
-            judged_keys: 0,
         }
     }
 
@@ -401,15 +510,7 @@ impl Exec {
         Ok(())
     }
 
-    /// Feed one key; returns what fired.  Judged on the spot by the reference matcher, which knows only the
-    /// dictionary and the property:
-    /// * soundness — a fire needs a chord bound to that value that is a suffix of the keys since the last fire / reset;
-    /// * pending `p` known and `p + key` bound: must fire its value, nothing pending afterwards;
-    /// * `p + key` a proper prefix of a bound chord: must not fire, `p + key` pending;
-    /// * `p + key` dead and the key begins no bound chord: afterwards the matcher must behave as idle
-    ///   ("an unbound key never prevents the chord typed immediately after it from firing", from any state);
-    /// * `p + key` dead and the key begins a chord: the restart policy is the implementation's business — the
-    ///   reference stops predicting until the next fire, reset or foreign key.
+    /// feed one key to `A.lookup_state`; returns what fired; judged on the spot by the reference matcher
     fn key(&mut self, k: Key) -> Result<Option<u32>, Failure> {
         let r = self.a.lookup_state(&mut self.state, k).copied();
         let a = match r {
@@ -417,60 +518,9 @@ impl Exec {
             Some(v) => format!("S{v}"),
         };
         let st = chord_wire(&self.state);
-        self.emit(format!("k={}", key_wire(&k)), a.clone());
+        self.emit(format!("k={}", key_wire(&k)), a);
         self.emit_rep(format!("k={}", key_wire(&k)), Some(st));
-        self.since_reset.push(k);
-        if let Some(v) = r {
-            let ok = self.da.0.iter().any(|(c, x)| *x == v && self.since_reset.ends_with(c));
-            if !ok {
-                return Err(Failure {
-                    what: "matcher fired a value although no chord bound to it ends at this key".to_string(),
-                    expected: json!("a bound chord that is a suffix of the keys since the last fire or reset"),
-                    got: json!(format!("S{v} after {}", chord_wire(&self.since_reset))),
-                });
-            }
-            self.since_reset.clear();
-        }
-        match self.ref_pending.take() {
-            Some(p) => {
-                self.judged_keys += 1;
-                let mut q = p.clone();
-                q.push(k);
-                match self.da.lookup(&q) {
-                    Ans::Success(v) => {
-                        if r != Some(v) {
-                            return Err(Failure {
-                                what: format!("matcher: pending {} + key {} is a bound chord but its value did not fire", chord_wire(&p), key_wire(&k)),
-                                expected: json!(format!("S{v}")),
-                                got: json!(a),
-                            });
-                        }
-                        self.ref_pending = Some(vec![]);
-                    }
-                    Ans::Continue => {
-                        if r.is_some() {
-                            return Err(Failure {
-                                what: format!("matcher: pending {} + key {} is a proper prefix of a bound chord but something fired", chord_wire(&p), key_wire(&k)),
-                                expected: json!("N"),
-                                got: json!(a),
-                            });
-                        }
-                        self.ref_pending = Some(q);
-                    }
-                    Ans::Failure => {
-                        if !self.da.begins_chord(&k) || r.is_some() {
-                            self.ref_pending = Some(vec![]);
-                        }
-                    }
-                }
-            }
-            None => {
-                let foreign = !self.da.0.iter().any(|(c, _)| c.contains(&k));
-                if r.is_some() || foreign {
-                    self.ref_pending = Some(vec![]);
-                }
-            }
-        }
+        self.refm.judge("matcher", &self.da, k, r)?;
         Ok(r)
     }
 
@@ -481,7 +531,7 @@ impl Exec {
                 let p = self.show_prev(prev);
                 self.emit(format!("ra={}={}", chord_wire(c), v), "r".to_string());
                 self.emit_rep(format!("ra={}={}", chord_wire(c), v), Some(p));
-                self.ref_pending = None;
+                self.refm.table_changed();
                 self.emit_spec(format!("ra={}={}", chord_wire(c), v), "r".to_string());
                 self.da.bind(c, *v);
                 if !c.is_empty() {
@@ -510,7 +560,7 @@ impl Exec {
                 self.a.register_override(&self.b);
                 self.emit("o".to_string(), "o".to_string());
                 self.emit_rep("o".to_string(), None);
-                self.ref_pending = None;
+                self.refm.table_changed();
                 self.emit_spec("o".to_string(), "o".to_string());
                 // the other map's chords are pairwise unrelated, so the order of replay is immaterial
                 let other = self.db.0.clone();
@@ -523,8 +573,8 @@ impl Exec {
             }
             Op::SetState(c) => {
                 self.state = c.clone();
-                self.ref_pending = Some(c.clone());
-                self.since_reset = c.clone();
+                // the caller resets its own vector; only an EMPTY vector is "nothing fed yet"
+                self.refm.reset(c, c.is_empty());
                 self.emit(format!("s={}", chord_wire(c)), "s".to_string());
                 self.emit_rep(format!("s={}", chord_wire(c)), None);
             }
@@ -533,13 +583,12 @@ impl Exec {
                 self.da = Dict::default();
                 self.emit("c".to_string(), "c".to_string());
                 self.emit_rep("c".to_string(), None);
-                self.ref_pending = None;
+                self.refm.table_changed();
                 self.emit_spec("c".to_string(), "c".to_string());
             }
             Op::Typed(segs) => {
                 self.state.clear();
-                self.ref_pending = Some(vec![]);
-                self.since_reset.clear();
+                self.refm.reset(&[], true);
                 self.emit("s=-".to_string(), "s".to_string());
                 self.emit_rep("s=-".to_string(), None);
                 // second matcher: the public handler type, loaded with the same bindings
@@ -598,6 +647,28 @@ impl Exec {
                 for c in all_chords(alpha, *n) {
                     self.lookup(&c)?;
                 }
+            }
+            Op::HReg(c, v) => {
+                self.h.register(c.as_slice(), *v);
+                self.dh.bind(c, *v);
+                self.refh.table_changed();
+                self.emit(format!("hr={}={}", chord_wire(c), v), "r".to_string());
+            }
+            Op::HClear => {
+                // after clear() the table is empty and the matcher idle, whatever was pending
+                self.h.clear();
+                self.dh = Dict::default();
+                self.refh.reset(&[], true);
+                self.emit("hc".to_string(), "c".to_string());
+            }
+            Op::HKey(k) => {
+                let r = self.h.handle(*k).copied();
+                let a = match r {
+                    None => "N".to_string(),
+                    Some(v) => format!("S{v}"),
+                };
+                self.emit(format!("hk={}", key_wire(k)), a);
+                self.refh.judge("KeyMapHandler", &self.dh, *k, r)?;
             }
         }
         Ok(())
@@ -677,7 +748,7 @@ fn script_case(out: &mut Out, tag: &str, ops: Vec<Op>) {
             let ans = ex.answers.join(" ");
             let regs = ops.iter().filter(|o| matches!(o, Op::RegA(..) | Op::RegB(..))).count();
             out.case(&req, regs >= 2);
-            out.evaluations += ex.lookups + ex.typed_chords + ex.judged_keys;
+            out.evaluations += ex.lookups + ex.typed_chords + ex.refm.judged + ex.refh.judged;
             if ex.unsorted_enum {
                 out.hist("enum:not-in-key-order(canonicalised)");
             }
@@ -928,6 +999,81 @@ fn gen_history(rng: &mut Rng, pool: &[Key], thorough: bool) -> Vec<Op> {
             }
         }
     }
+    // a `KeyMapHandler` of its own: registrations, keys (chords are left half typed), clear(), registrations that
+    // share prefixes with what was pending, chords typed right after; registering while a chord is pending
+    if rng.chance(2, 3) {
+        let mut dh = Dict::default();
+        let mut hval = 100u32;
+        for _round in 0..(1 + rng.below(3)) {
+            for _ in 0..(1 + rng.below(4)) {
+                let c = rand_chord(rng, &alpha, 4);
+                dh.bind(&c, hval);
+                ops.push(Op::HReg(c, hval));
+                hval += 1;
+            }
+            // some typing, then (usually) a proper prefix of a bound chord is left pending
+            for _ in 0..rng.below(3) {
+                if rng.chance(1, 4) {
+                    ops.push(Op::HKey(*rng.pick(&with_junk)));
+                } else {
+                    for k in rng.pick(&dh.0).0.clone() {
+                        ops.push(Op::HKey(k));
+                    }
+                }
+            }
+            let long: Vec<Vec<Key>> = dh.0.iter().filter(|(c, _)| c.len() >= 2).map(|(c, _)| c.clone()).collect();
+            let mut stale: Option<(Vec<Key>, usize)> = None;
+            if !long.is_empty() && rng.chance(3, 4) {
+                let c = rng.pick(&long).clone();
+                let j = 1 + rng.below(c.len() as u64 - 1) as usize;
+                for k in &c[..j] {
+                    ops.push(Op::HKey(*k));
+                }
+                stale = Some((c, j));
+            }
+            if rng.chance(2, 3) {
+                ops.push(Op::HClear);
+                dh = Dict::default();
+            }
+            // the new bindings: the chord that was being typed again, and a chord that starts with the key that
+            // would have continued it
+            if let Some((c, j)) = &stale {
+                if rng.chance(2, 3) {
+                    dh.bind(c, hval);
+                    ops.push(Op::HReg(c.clone(), hval));
+                    hval += 1;
+                    let mut d = vec![c[*j]];
+                    for _ in 0..(1 + rng.below(2)) {
+                        d.push(*rng.pick(&alpha));
+                    }
+                    if !related(&d, c) {
+                        dh.bind(&d, hval);
+                        ops.push(Op::HReg(d.clone(), hval));
+                        hval += 1;
+                        for k in d {
+                            ops.push(Op::HKey(k));
+                        }
+                    }
+                }
+            }
+            for _ in 0..rng.below(3) {
+                let c = rand_chord(rng, &alpha, 3);
+                dh.bind(&c, hval);
+                ops.push(Op::HReg(c, hval));
+                hval += 1;
+            }
+            if !dh.0.is_empty() {
+                for _ in 0..(1 + rng.below(3)) {
+                    if rng.chance(1, 4) {
+                        ops.push(Op::HKey(*rng.pick(&junk)));
+                    }
+                    for k in rng.pick(&dh.0).0.clone() {
+                        ops.push(Op::HKey(k));
+                    }
+                }
+            }
+        }
+    }
     ops
 }
 
@@ -1008,6 +1154,36 @@ fn corner_histories(pool: &[Key]) -> Vec<(&'static str, Vec<Op>)> {
     ops.push(Op::Key(f1));
     ops.push(Op::Key(x));
     res.push(("matcher-aborted-chord", ops));
+    // KeyMapHandler: clear() while a chord is half typed, then bindings that share the stale prefix
+    let ops = vec![
+        Op::HReg(vec![x, a], 1),
+        Op::HKey(x),
+        Op::HClear,
+        Op::HReg(vec![x, a], 10),
+        Op::HReg(vec![a, b], 11),
+        Op::HKey(a),
+        Op::HKey(b),
+        Op::HKey(x),
+        Op::HKey(a),
+        Op::HClear,
+        Op::HKey(a),
+        Op::HKey(x),
+        Op::HReg(vec![b], 12),
+        Op::HKey(b),
+        Op::HKey(f1),
+        Op::HKey(b),
+        // registering while a chord is pending
+        Op::HReg(vec![a, a, a], 13),
+        Op::HKey(a),
+        Op::HKey(a),
+        Op::HReg(vec![a, a, b], 14),
+        Op::HKey(b),
+        Op::HKey(f1),
+        Op::HKey(a),
+        Op::HKey(a),
+        Op::HKey(a),
+    ];
+    res.push(("handler-clear", ops));
     // order of iteration across variants, payloads and modifiers
     let mut ops: Vec<Op> = Vec::new();
     for (i, k) in pool.iter().enumerate().rev() {
